@@ -149,6 +149,11 @@ def check(ctx):
     for b in abort_own:
         on_fail = any(R.dominates(ft, b) for ft in lookup_fail_targets)
         on_root_none = R.dominates(none_t, b) and any(eq_t is not None and R.dominates(eq_t, b) for (_, cv, eq_t, ne_t, _) in idx_checks)
+        if not (on_fail or on_root_none):
+            # several failure arms may share one abort site (`Missing | NoStorage => abort`): every path to it passes one of them
+            licensed = set(lookup_fail_targets) | {x for x in R.reachable if R.dominates(none_t, x) and any(
+                eq_t is not None and R.dominates(eq_t, x) for (_, cv, eq_t, ne_t, _) in idx_checks)}
+            on_fail = bool(licensed) and b not in R.reach_from(0, avoid=licensed)
         ctx.check(on_fail or on_root_none, "C02.a", "%s:abort-only-when-target-missing" % fk, R.loc(b),
                   "abort is on a lookup-failure arm or on (take()==None, counter==0)",
                   "abort helper called on a path where the target was found and could run")
